@@ -23,6 +23,7 @@ UNIT = dict(
                   ("abstract", "reg_one = __abs_pass_one(&mut __st, it);")),
                  (r"^reg_two = single_player_iter::<false>\( root, &mut chance_infosets, \[&mut player_two, &mut player_one\], target, &mut work, it, params, \);$",
                   ("abstract", "reg_two = __abs_pass_two(&mut __st, it);")),
+                 (r"^chance_infosets \.iter_mut\(\) \.for_each\(", ("abstract", ""), "optional"),
              ]},
              contract="""requires
     *old(__reg_one) == finf() && *old(__reg_two) == finf(),
